@@ -62,8 +62,8 @@ CLAIMS = {
             'formulation for EVERY string over A-Z,* up to length 10 (thorough 14); digestion windows, '
             'miscleavage bound, length limits, X filter, N-terminal M removal, pool assembly (stop cut, leading X, '
             'I->L image) and parameter plumbing on symbolic proteins / option values.',
-            'Molecular-weight numerics are stubbed (outside the claim); digestion bounds: protein length <= 6, '
-            '<= 2 sites (thorough 3).'),
+            'Molecular-weight numerics are stubbed (a constant, or an exact integer residue-mass model against a symbolic mass '
+            'limit); digestion bounds: protein length <= 6, <= 2 sites (thorough 3).'),
     'C11': (True, CH,
             'Coordinate conversions are mutually inverse and reject introns for UNBOUNDED symbolic exon '
             'coordinates (1-3 exons, thorough 4, both strands); extracted sequences equal the strand-corrected '
